@@ -130,7 +130,9 @@ struct JSON {
                     break;
                 }
 
-                value.Reset();
+                // Malformed: nothing of it is valid, so the enclosing containers must fail too.
+                offset = length;
+                return ValueT{};
             }
 
             ++offset;
@@ -167,7 +169,9 @@ struct JSON {
                     break;
                 }
 
-                value.Reset();
+                // Malformed: nothing of it is valid, so the enclosing containers must fail too.
+                offset = length;
+                return ValueT{};
             }
 
             ++offset;
